@@ -2814,16 +2814,17 @@ ErrorCode oas_precision(const char* filename, double& precision) {
     OasisStream s = {in};
     uint64_t len;
     uint8_t* version = oasis_read_string(s, false, len);
-    if (memcmp(version, "1.0", 3) != 0) {
+    if (version == NULL || len != 3 || memcmp(version, "1.0", 3) != 0) {
         if (error_logger) fputs("[GDSTK] Unsupported OASIS file version.\n", error_logger);
-        free_allocation(version);
+        if (version) free_allocation(version);
+        fclose(in);
         return ErrorCode::InvalidFile;
     }
     free_allocation(version);
 
     precision = 1e-6 / oasis_read_real(s);
     fclose(in);
-    return ErrorCode::NoError;
+    return s.error_code;
 }
 
 bool oas_validate(const char* filename, uint32_t* signature, ErrorCode* error_code) {
